@@ -168,7 +168,7 @@ func r10_1(c *Ctx, rule string) {
 		if kind == "exclude" {
 			call, prune = fw.excCall, true
 		}
-		c.ObUnreachable(rule, con+"/needs-verdict", lit, map[string]bool{call.Name() + "#0": !prune}, isEx, "pruning (SkipDir)", fmt.Sprintf("the %s matcher's verdict is %v", kind, !prune))
+		c.ObUnreachable(rule, con+"/needs-verdict", lit, map[string]bool{c.reg(call) + "#0": !prune}, isEx, "pruning (SkipDir)", fmt.Sprintf("the %s matcher's verdict is %v", kind, !prune))
 		c.ObReachable(rule, con+"/live", lit, nil, isEx, "this pruning exit", "nothing is assumed")
 	}
 	c.R.Floor(rule, "pattern-based SkipDir exits", n, 3)
@@ -389,7 +389,7 @@ func r10_5(c *Ctx, rule string) {
 	}{{"/include-miss-not-reported", "the include matcher did not match the entry", fw.incCall, false}, {"/exclude-hit-not-reported", "the exclude matcher matched the entry", fw.excCall, true}} {
 		ex := c.explorer(lit)
 		ex.From = e.call
-		ex.Assume = map[string]bool{e.call.Name() + "#0": e.verdict}
+		ex.Assume = map[string]bool{c.reg(e.call) + "#0": e.verdict}
 		ex.Target = func(in ssa.Instruction, st *eng.State) bool { return isReport(in) }
 		ex.StopAtTarget = true
 		h := ex.Run()
@@ -402,7 +402,7 @@ func r10_5(c *Ctx, rule string) {
 			c.R.OK(rule, base+e.con, c.pos(e.call), "nothing is reported when "+e.what)
 		}
 	}
-	c.ObReachable(rule, base+"/match-reported", lit, map[string]bool{fw.incCall.Name() + "#0": true, fw.excCall.Name() + "#0": false}, isReport, "the walk callback", "the entry is included and not excluded")
+	c.ObReachable(rule, base+"/match-reported", lit, map[string]bool{c.reg(fw.incCall) + "#0": true, c.reg(fw.excCall) + "#0": false}, isReport, "the walk callback", "the entry is included and not excluded")
 	// ancestors
 	x := c.explorer(lit)
 	var parentReport ssa.CallInstruction
